@@ -240,13 +240,14 @@ def check_mark_nodes(chk, rep, repo):
         NIL = ("K", "NIL")
         head = None  # node term at the loop head, and how the walk advances
         step_ok = False
+        walker = None
         for name, (init, end) in li.carried.items():
             ph = ("phi", li.lid, name)
             e2 = end[1] if end[0] == "old" else end
             if init == ip and e2 == ("attr", node(ph), "pred"):
-                head, step_ok = node(ph), True  # index walk: i = nodes[i].pred
+                head, step_ok, walker = node(ph), True, name  # index walk: i = nodes[i].pred
             elif init == node(ip) and e2 == node(("attr", ph, "pred")):
-                head, step_ok = ph, True  # reference walk: node = nodes[node.pred]
+                head, step_ok, walker = ph, True, name  # reference walk: node = nodes[node.pred]
         from ..ir import conj, facts, mk_not
         cont = ("cmp", "!=", *sorted([NIL, ("attr", head, "pred")], key=repr)) if head is not None else None
         conds = [] if li.cond == ("const", True) else list(conj(li.cond))
@@ -258,7 +259,7 @@ def check_mark_nodes(chk, rep, repo):
         inside = [e for e in w.events if e.kind == "store" and li.lid in e.loops]
         in_ok = head is not None and len(inside) == 1 and inside[0].target == ("attr", head, "relevant") \
             and inside[0].value == ("K", "RELEVANT") and tuple(facts(inside[0].guards)) == body_facts
-        moves = [e for e in w.events if e.kind == "bind" and li.lid in e.loops and e.name in li.carried]
+        moves = [e for e in w.events if e.kind == "bind" and li.lid in e.loops and e.name == walker]
         if in_ok:
             # the flag must be written before the walk moves on
             in_ok = all(e.seq > inside[0].seq for e in moves)
